@@ -49,6 +49,38 @@ Proof.
 Qed.
 Print Assumptions windowed_recorded_total.
 
+(* ---- Part 2: the stage loop of the sampler (Model/Sampler.v) ---------------------------------------------- *)
+Require Import Mici.Model.Sampler Mici.Proofs.SamplerProofs.
+Section StageLoop.
+  Variables St Rng Par Ast Stat V : Type.
+  Variable init_ad : adapters -> Par -> St -> Ast * Par.
+  Variable iter_fn : adapters -> Par -> Ast -> St -> Rng -> St * Stat * Rng * Ast * Par.
+  Variable fin_ad : adapters -> Par -> list Ast -> list (St * Rng) -> Par * list (St * Rng).
+  Variable tr : St -> V.
+  Variable ast0 : Ast.
+  Variable nchain : nat.
+  Notation run := (run St Rng Par Ast Stat V init_ad iter_fn fin_ad tr ast0 nchain None).
+
+  (* a stage without iterations changes nothing: the run over any stage list equals the run over the list with the empty
+     stages removed (whatever adapters they carry: they are neither initialized nor finalized) *)
+  Theorem empty_stages_change_nothing : forall l w0,
+    run (filter (fun s => 0 <? n_iter s) l) w0 = run l w0.
+  Proof. intros l w0. unfold Sampler.run. rewrite (run_skips_empty_stages nchain l 0%nat). reflexivity. Qed.
+
+  (* during a stage without adapters (the main stage) no transition parameter changes, and every transition call of that stage
+     sees exactly the parameters left by the stages before it (i.e. those finalized by the last warm-up stage that ran),
+     provided nothing but adapters assigns parameters *)
+  Theorem main_stage_params_constant :
+    (forall p ast s r, snd (iter_fn NoAd p ast s r) = p) ->
+    forall l main w0, ads main = NoAd ->
+    let wl := run l w0 in let w := run (l ++ [main]) w0 in
+    w_par _ _ _ _ _ _ w = w_par _ _ _ _ _ _ wl /\
+    exists ext, w_parlog _ _ _ _ _ _ w = w_parlog _ _ _ _ _ _ wl ++ ext /\ Forall (fun e => e = (NoAd, w_par _ _ _ _ _ _ wl)) ext.
+  Proof. intros H l main w0 Ha. exact (main_stage_params St Rng Par Ast Stat V init_ad iter_fn fin_ad tr ast0 nchain H l main w0 Ha). Qed.
+End StageLoop.
+Print Assumptions empty_stages_change_nothing.
+Print Assumptions main_stage_params_constant.
+
 (* non-vacuity and a regression witness: the default settings on a short warm-up (fallback 15/75/10) *)
 Example windowed_default_1000 :
   option_map (map n_iter) (gen_WindowedWarmUpStager_stages 25 75 50 (2 # 1) 1000 500 true false)
